@@ -9,7 +9,7 @@ for id in $ids; do
   pid=${id%%-*}
   P=/verif/seeded/$id/patch.diff; [ -f /verif/seeded/$id/patch_rebased.diff ] && P=/verif/seeded/$id/patch_rebased.diff; git -C /repo apply $P 2>/dev/null || { echo "$id patch-does-not-apply" | tee -a $out.tmp; continue; }
   res=$(./check $pid 2>&1 | grep -v "^KNOWN")
-  git -C /repo checkout -- .
+  git -C /repo checkout -- . && git -C /repo clean -fdq
   nviol=$(echo "$res" | grep -c "^VIOLATION")
   nconc=$(echo "$res" | grep "^VIOLATION" | grep -vc "no-failing-input-found")
   echo "$id detected=$([ $nviol -gt 0 ] && echo yes || echo NO) violations=$nviol with-failing-input=$nconc" | tee -a $out.tmp
